@@ -191,3 +191,46 @@ func fmtNames(prefix string, n int) []string {
 	}
 	return out
 }
+
+// dataLessStep is one render of a page of a loaded tree without any data
+type dataLessStep struct {
+	page  string
+	want  string
+	fails bool
+}
+
+// judgeDataLessSequence loads the tree once and renders the pages in order, each with nil data (first round) and with an
+// empty map (second round) and with alternating ones (third): every render gives what the page gives on its own - what an
+// earlier render assigned is gone
+func judgeDataLessSequence(c *core.Ctx, dir string, files map[string]string, steps []dataLessStep, kind string) {
+	tpl, err := loadTree(c, dir, files, ".tw")
+	c.Nontrivial(fmt.Sprint(kind, files, steps))
+	if err != nil {
+		c.Violation(kind+":load-failed", "a valid tree was rejected: "+err.Error(), map[string]any{"files": describeFiles(files)})
+		return
+	}
+	if tpl == nil {
+		return
+	}
+	for round := 0; round < 3; round++ {
+		for k, st := range steps {
+			var data map[string]any
+			if round == 1 || round == 2 && k%2 == 1 {
+				data = map[string]any{}
+			}
+			got, _ := renderPage(c, tpl, st.page, data)
+			if got.Panicked {
+				return
+			}
+			desc := map[string]any{"files": describeFiles(files), "renders_so_far": k + round*len(steps), "page": st.page, "data": fmt.Sprintf("%#v", data)}
+			switch {
+			case st.fails && got.Err == nil:
+				c.Violation(kind+":render-succeeded", fmt.Sprintf("render %d (round %d) of page %q without data gave %q; on its own the page fails (it reads a name nothing in this render binds)", k+1, round+1, st.page, got.Out), desc)
+				return
+			case !st.fails && (got.Err != nil || got.Out != st.want):
+				c.Violation(kind+":render-differs", fmt.Sprintf("render %d (round %d) of page %q without data gave %s, on its own it gives %q", k+1, round+1, st.page, got.Describe(), st.want), desc)
+				return
+			}
+		}
+	}
+}
